@@ -4,7 +4,7 @@ from gen_script import Gen
 
 PROP = "C02"
 NEEDS = ["model/Syntax.v", "model/Parser.v", "model/Values.v", "model/Eval.v", "model/Loader.v", "proofs/LoadP.v",
-         "model/Listener.v", "proofs/ListenerP.v", "proofs/ParserP.v", "extract/Extract.v"]
+         "model/Listener.v", "proofs/ListenerP.v", "proofs/ParserP.v", "proofs/CompleteP.v", "extract/Extract.v"]
 
 
 def cases(rng, quick, gr):
